@@ -97,6 +97,12 @@ RunTask(s, i) ==
       [] t.kind = "D" -> {Res([s1 EXCEPT !.disk[t.k] = None], "Ok")}
       [] t.kind = "F" -> {Res([s1 EXCEPT !.mfile = t.c], "Ok")}
 
+\* the write body fails (the disk refuses the file): nothing is written, the store is told to forget the record
+FailTask(s, i) ==
+    LET t == s.tasks[i]  s1 == DropTask(s, i) IN
+    IF t.kind # "W" THEN {}
+    ELSE {Res([s1 EXCEPT !.notes = Append(s1.notes, [kind |-> "R", k |-> t.k])], "Ok")}
+
 \* ------------------------------------------------------------ completion notes
 \* deliver the j-th undelivered note
 HandleNote(s, j) ==
@@ -160,8 +166,9 @@ Settled(s) == s.tasks = <<>> /\ s.notes = <<>>
 InFlightWrites(s) == {i \in 1..Len(s.tasks) : s.tasks[i].kind = "W"}
 PendingAdds(s) == {j \in 1..Len(s.notes) : s.notes[j].kind = "A"}
 
+\* an accepted write of k whose outcome the store has not been told yet (completion or failure report pending)
 InFlightKey(s, k) == \/ \E j \in 1..Len(s.tasks) : s.tasks[j].kind = "W" /\ s.tasks[j].k = k
-                     \/ \E j \in 1..Len(s.notes) : s.notes[j].kind = "A" /\ s.notes[j].k = k
+                     \/ \E j \in 1..Len(s.notes) : s.notes[j].k = k
 
 \* keys that leave the index in this step
 Lost(x) == x.s.idx \ x.r.st.idx
@@ -238,6 +245,8 @@ W_C10_PaySurvivesRestart(x) ==
 
 GhostNext(g, x) ==
     LET rm == Lost(x) \cup (IF x.ev = "Remove" THEN {x.k} ELSE {})
+                     \* a failed write is reported back and the key forgotten, listed or not
+                     \cup (IF x.ev = "HandleNote" /\ x.s.notes[x.ni].kind = "R" THEN {x.s.notes[x.ni].k} ELSE {})
         acc == x.ev = "PutVerified" /\ x.r.res = "Ok"
         t == IF x.ev = "RunTask" THEN x.s.tasks[x.i] ELSE [kind |-> "-"]
     IN [ validated |-> IF x.ev = "PutVerified" THEN [g.validated EXCEPT ![x.k] = @ \cup {x.v}] ELSE g.validated,
@@ -324,6 +333,7 @@ ModelResults(x) ==
     CASE x.ev = "PutVerified"     -> PutVerified(x.s, x.k, x.v)
       [] x.ev = "Remove"          -> Remove(x.s, x.k)
       [] x.ev = "RunTask"         -> RunTask(x.s, x.i)
+      [] x.ev = "FailTask"        -> FailTask(x.s, x.i)
       [] x.ev = "HandleNote"      -> HandleNote(x.s, x.ni)
       [] x.ev = "Get"             -> Get(x.s, x.k)
       [] x.ev = "SetRange"        -> SetRange(x.s, x.rg)
